@@ -16,6 +16,14 @@ def dec_strings(rng, k):
     for _ in range(12):
         vals.add(rng.getrandbits(w))
         vals.add(rng.getrandbits(w + 3))
+    # the boundaries of EVERY machine width (an implementation may parse through a wider or narrower integer and
+    # truncate): 2^j - 1, 2^j, 2^j + 1, valid values shifted by multiples of 2^j, and powers of ten up to 10^40
+    for j in (1, 2, 4, 8, 16, 32, 64, 128, 256):
+        vals |= {(1 << j) - 1, 1 << j, (1 << j) + 1, (1 << j) + ((1 << w) - 1), 3 << j, (1 << j) + rng.getrandbits(w)}
+    p = 1
+    for _ in range(41):
+        vals |= {p, p + 1, 2 * p}
+        p *= 10
     out = set()
     for v in vals:
         if v < 0:
